@@ -700,6 +700,9 @@ pub fn run_shard(ctx: &mut Ctx) {
         let t0 = ctx.t0;
         let b = ctx.budget_s;
         crate::props::maxbatch::run(&mut ctx.out, n, &mut r, &|| util::now_s() - t0 < b);
+        // real crashes: a child process running a history is killed with SIGKILL and its directory recovered
+        let n = if ctx.tier == Tier::Quick { 12 } else { 2000 };
+        crate::props::kill9::run(&mut ctx.out, n, &mut r, &|| util::now_s() - t0 < b * 0.5);
     }
     loop {
         if ctx.tier == Tier::Quick && h >= quick_n {
